@@ -76,3 +76,22 @@ chk("C06",
     "cumsum-difference = run sum of the numpy variant is validated by correspondence, not yet proved; the pit builders' "
     "equivariance is covered by the variant oracle only.",
     "Lean 4 proof over grouped-sum/lookup model; exact correspondence; metamorphic relabel/permute search", "8/C06")
+chk("C08",
+    "Lean theorems: on any meshed topology two steady states of the same network with strictly monotone branch laws have identical "
+    "flows (Tellegen argument over the incidence sums) and identical pressures at every node connected to a pressure-fixing node; "
+    "the liquid friction law of the kernels generated from the current source, with the Nikuradse factor, is a*m + b*m|m| with "
+    "explicit coefficients that are positive / non-negative for physical parameters, and every such law is strictly monotone. "
+    "Together with C05 (an accepted run is an approximate solution of that system) this makes the result independent of start "
+    "values and damping. Oracle: each generated net solved twice with perturbed start values and independently drawn damping.",
+    "Monotonicity for Colebrook / Swamee-Jain and for gases (pressure dependent compressibility) is a named hypothesis "
+    "(theorems carry it explicitly); the thermal stage is covered by the oracle.",
+    "Lean 4 proof (uniqueness of the hydraulic solution) over generated kernels; start-value / damping differential search", "8/C08")
+chk("C09",
+    "Lean theorems over kernels regenerated from the current source: reversing a passive branch negates the liquid and gas "
+    "residuals (flow sign flips, pressures unchanged); n sections of a liquid pipe (length and lumped coefficient divided by n) lose "
+    "exactly what the one-section pipe loses; liquid residual and Jacobian are invariant under a common pressure shift; loads "
+    "aggregate per junction and a source is a negative sink; disabled = absent is C04's theorem. Oracle: every generated net vs. one "
+    "rewrite of itself (reverse subset, split into series pipes, one section, aggregate loads, source as sink, drop disabled, "
+    "shift pressures), hydraulic and thermal.",
+    "Series-split equivalence (n pipes with intermediate junctions) and the thermal side of the rewrites are covered by the oracle.",
+    "Lean 4 proof of symmetry/invariance laws over translated kernels; metamorphic rewrite search", "8/C09")
